@@ -46,10 +46,14 @@ class Case:
         self.models = {}       # marker -> (project, version or None)
         self.n = 0
         self.positions = set()
+        self.uses_project = False
 
     def tbl(self, home=None):
         self.n += 1
         m = f'tb_{self.n:02d}'
+        if home is None and self.r.random() < 0.12:
+            home = 'proj2'              # a table (view) of a project that holds no model: declared in the catalog as a non-data entry
+            self.uses_project = True
         home = home or self.r.choice(INTS)
         self.homes[m] = home
         return f'{spell(home, self.style)}.{m}'
@@ -172,6 +176,10 @@ def catalog(form, case, default_ns):
         integrations = ['INT1', {'name': 'Int2', 'type': 'data'}, 'int3', {'name': 'Proj', 'type': 'project'}]
     if form == 9:
         integrations = [{'name': n, 'type': 'data'} for n in ints] + [{'name': 'proj', 'type': 'project'}, {'name': 'mindsdb', 'type': 'project'}]
+    if getattr(case, 'uses_project', False):
+        # the project of the statement's project tables: a dict entry of type 'project', its name in either case
+        integrations = [({'name': x, 'type': 'data'} if isinstance(x, str) else x) for x in integrations]
+        integrations.append({'name': 'Proj2' if form % 2 else 'proj2', 'type': 'project'})
     pm = model_metadata(case, variant=form in (1, 3, 4, 8))
     kw = {}
     if form in (3, 5):
@@ -262,7 +270,7 @@ def judge(case, rows, default_ns):
                 if integ != home:
                     out.append(({'defect': 'table-sent-to-wrong-integration'}, {'marker': m, 'home': home, 'sent_to': integ}))
                 for parts in occ:
-                    if len(parts) > 1 and parts[0].lower() in INTS + ['mindsdb', 'proj']:
+                    if len(parts) > 1 and parts[0].lower() in INTS + ['mindsdb', 'proj', 'proj2']:
                         out.append(({'defect': 'qualifier-kept-in-pushed-query'}, {'marker': m, 'parts': parts, 'integration': integ}))
         elif r[0].startswith('dml'):
             parts = [p.lower() for p in r[1]]
@@ -274,7 +282,7 @@ def judge(case, rows, default_ns):
                     out.append(({'defect': 'dml-target-wrong-integration'}, {'marker': m, 'table': r[1]}))
             for m2, occ in r[2].items():
                 for parts2 in occ:
-                    if len(parts2) > 1 and parts2[0].lower() in INTS + ['mindsdb', 'proj']:
+                    if len(parts2) > 1 and parts2[0].lower() in INTS + ['mindsdb', 'proj', 'proj2']:
                         out.append(({'defect': 'qualifier-kept-in-pushed-query'}, {'marker': m2, 'parts': parts2, 'step': r[0]}))
                 # tables inside the WHERE of a delete step are executed on the target's integration
                 home = case.homes.get(m2)
